@@ -10,12 +10,14 @@ from . import common, elements, c17, rt
 PROP = 'C18'
 MOD = 'mirsym.checks.c18'
 PROPS = "s?: string; n?: number; fn?: () => void; ff?: Function; 'q-k'?: string; u?: string | number; cb?(): number; o?: object; p?: Promise<string>; fu?: (() => void) | string; 'qq'?: string; 'qf'?(): number; 'qn'?: number"
-PRE = "const v1 = 1, f1 = () => 2, s = 'sh', fn = () => {{}}, kk = 's', qq = 'shq';\nconst dyn: any = {{}};\n"
+PRE = "const v1 = 1, f1 = () => 2, s = 'sh', fn = () => {{}}, ff = () => 3, kk = 's', qq = 'shq';\nconst dyn: any = {{}};\n"
 ENTRIES = {
     'lit': "s: 'hi'", 'num': 'n: 1', 'neg': 'n: -1', 'tpl': 's: `t`', 'expr': 'n: v1', 'call': 's: f1()', 'arr': 'o: [1, 2]', 'obj': 'o: {{ a: 1 }}', 'null': 'o: null',
     'fnarrow': 'fn: () => {{}}', 'fnident': 'fn: f1', 'ffarrow': 'ff: () => 1', 'fnfn': 'fn: function () {{}}', 'fuarrow': 'fu: () => {{}}', 'short': 's', 'shortfn': 'fn', 'tqshort': 'qq',
     'getter': "get s() {{ return 'g' }}", 'method': 'cb() {{ return 1 }}', 'amethod': "async p() {{ return 'x' }}", 'quoted': "'q-k': 'x'", 'quoted2': "'s': 'x'",
     'tq': "qq: 'y'", 'tqexpr': 'qq: f1()', 'tqget': "get qq() {{ return 'g' }}", 'tqmethod': 'qf() {{ return 3 }}', 'tqcomp': "['qq']: 'c'", 'tqnum': 'qn: 2',
+    'fngetter': 'get fn() {{ return f1 }}', 'ffshort': 'ff', 'fncall': 'fn: f1()', 'fucall': 'fu: f1()',
+    'gmethod': '*cb() {{ yield 1 }}', 'agmethod': 'async *cb() {{ yield 2 }}', 'gmethodq': "*'qf'() {{ yield 3 }}", 'amethodcb': 'async cb() {{ return 4 }}',
     'complit': "['s']: 'x'", 'compnum': "[1]: 'x'", 'extra': 'zzz: 1', 'methodq': "'cb'() {{ return 2 }}",
 }
 DYNAMIC = {'ident': 'dyn', 'spread': '{{ ...dyn }}', 'spread2': "{{ s: 'hi', ...dyn }}", 'computed': '{{ [v1]: 1 }}', 'compident': "{{ [kk]: 'x' }}", 'compcall': "{{ [f1()]: 1 }}", 'call': 'f1()',
@@ -111,6 +113,20 @@ def resolved_by_vue(ctx, type_list, default_expr):
         return ('called', d)
     if denote.is_expr(d, 'Fn') and not is_fn_type:
         return ('called-fn', deref(d.fields[0].get('function')))
+    if is_fn_type:
+        # `(() => { ... })()`: evaluated where it stands; what it returns is the block's result
+        inner = d
+        if denote.is_expr(inner, 'Call'):
+            c = inner.fields[0]
+            cal = c.get('callee')
+            if len(c.get('args')) == 0 and cal.variant == 'Expr':
+                f = denote.E(cal.fields[0])
+                while denote.is_expr(f, 'Paren'):
+                    f = denote.E(f.fields[0].get('expr'))
+                if denote.is_expr(f, 'Arrow') and len(f.fields[0].get('params')) == 0 and not f.fields[0].get('is_async') and not f.fields[0].get('is_generator'):
+                    body = deref(f.fields[0].get('body'))
+                    if body.variant == 'BlockStmt':
+                        return ('block', body.fields[0])
     return ('value', d)
 
 
@@ -183,6 +199,10 @@ def jobs(tier):
             continue
         out.append({'entries': [a, b]})
     out.append({'entries': ['lit', 'num', 'fnarrow', 'quoted', 'method', 'amethod', 'extra']})
+    # the same key written twice: JavaScript keeps the last one
+    for a, b in (('lit', 'quoted2'), ('quoted2', 'lit'), ('num', 'neg'), ('neg', 'expr'), ('tq', 'tqexpr'), ('lit', 'getter'), ('getter', 'lit'), ('method', 'gmethod'), ('gmethod', 'method'),
+                 ('complit', 'lit'), ('short', 'lit'), ('lit', 'short')):
+        out.append({'entries': [a, b]})
     out.append({'entries': ['lit'], 'setup': 'fn'})
     out.append({'entries': ['fnident', 'getter'], 'setup': 'fn'})
     for d in DYNAMIC:
